@@ -16,6 +16,7 @@ mod volatile;
 mod guest;
 mod addr;
 mod endian;
+mod streams;
 
 use std::io::{BufRead, BufWriter, Write};
 
@@ -36,6 +37,7 @@ fn main() {
         "guest" => Box::new(guest::GuestExec::default()),
         "addr" => Box::new(addr::AddrExec::default()),
         "endian" => Box::new(endian::EndianExec::default()),
+        "streams" => Box::new(streams::StreamExec::default()),
         _ => {
             eprintln!("unknown module {module}");
             std::process::exit(2);
